@@ -233,7 +233,7 @@ def hash_seed_fits(tier, seed):
 def check(rep, proof):
     rng = random.Random(rep.seed)
     n = 250 if rep.tier == "quick" else 4000
-    cases = [c19.gen_case(rng, multi=True) for _ in range(n)]
+    cases = [c19.gen_case(rng, multi=True, fault=False) for _ in range(n)]
     os.makedirs(os.path.join(vlib.VERIF, "work"), exist_ok=True)
     rc, res, out, wall = vlib.run_impl("c17", dict(cases=cases, seed=rep.seed, agraph_runs=8 if rep.tier == "quick" else 120), timeout=3400)
     if res is None:
